@@ -95,7 +95,8 @@ def REQUIRE(tier):
     q = tier == "quick"
     req = {"acc_nonaccepted_evals": 300 if q else 5000, "acc_controls_ok": 50 if q else 1200,
            "acc_mismatch_evals": 40 if q else 1200, "acc_split_cmd_evals": 30 if q else 100,
-           "req_nonaccepted_evals": 40 if q else 800, "req_controls_ok": 8 if q else 120}
+           "req_nonaccepted_evals": 40 if q else 800, "req_controls_ok": 8 if q else 120,
+           "race_associate_cases": 10 if q else 250, "race_yield_hits": 10 if q else 250}
     for c in NONACC:
         req["acc_cls_" + c] = 10 if q else (11 if c == "zero" else 1000)
     for rt in RTYPES:
@@ -320,6 +321,10 @@ def gen_cases(tier, seed):
     rng.shuffle(req)
     rb = 8 if tier == "quick" else 16
     cases += [{"dir": "requestor", "evals": req[i:i + rb]} for i in range(0, len(req), rb)]
+    # a request on a REJECTED context that arrives in the same TCP segment as the A-ASSOCIATE-AC: it races the requestor's own
+    # processing of the AC (N-EVENT-REPORT requests are served in a thread of their own, straight from the provider)
+    for i in range(12 if tier == "quick" else 300):
+        cases.append({"dir": "race-associate", "i": i, "seed": seed, "evals": []})
     return cases
 
 
@@ -836,9 +841,112 @@ def run_requestor_case(case, counters):
 
 # ------------------------------------------------------------------ entry points
 
+_RACE = {"installed": False, "on": False, "hits": 0}
+
+
+def _race_injection(on):
+    """An 80 ms stop (sys.monitoring LINE event) at the statement of ACSE._negotiate_as_requestor that follows the publication of the
+    accepted-context table: whatever that table holds at that point stays visible to the N-EVENT-REPORT thread for a while."""
+    import sys
+    from pynetdicom.acse import ACSE
+    mon = sys.monitoring
+    code = ACSE._negotiate_as_requestor.__code__
+    if not _RACE["installed"]:
+        mon.use_tool_id(5, "c19-race-yields")
+        from vlib import sched
+        # the statement that follows the publication of the accepted-context table: a long stop there, short ones everywhere else
+        _RACE["hot"] = sched.find_line(ACSE._negotiate_as_requestor, "self.assoc._rejected_cx = [")
+
+        def hit(c, line):
+            if _RACE["on"]:
+                _RACE["hits"] += 1
+                if line == _RACE.get("hot"):
+                    time.sleep(0.08)
+        mon.register_callback(5, mon.events.LINE, hit)
+        _RACE["installed"] = True
+    _RACE["on"] = on
+    mon.set_local_events(5, code, mon.events.LINE if on else 0)
+
+
+def run_race_associate(case, counters):
+    from pynetdicom import evt
+    taps.reset()
+    NER_SOP = "1.2.840.10008.1.20.1"          # Storage Commitment Push Model
+    lst = vpeer.Listener()
+    calls = []
+    seen = {}
+
+    def script():
+        q = lst.accept(5.0)
+        if q is None:
+            return
+        try:
+            rq = q.recv_pdu(4.0)
+            if not rq or rq.get("type") != "RQ":
+                return
+            results = {pc["id"]: (0 if pc["abs"] == VER else 3) for pc in rq["pcs"]}
+            ac = ps38.make_ac(rq, results=results)
+            rej = [pc["id"] for pc in ac["pcs"] if pc["result"] != 0]
+            seen["rejected"] = rej
+            cmd = cmdset.make("N-EVENT-REPORT-RQ", AffectedSOPClassUID=NER_SOP, MessageID=5, AffectedSOPInstanceUID="1.2.3.4", EventTypeID=1,
+                              CommandDataSetType=0x0101)
+            ner = b"".join(ps38.encode(v) for v in q.dimse_pdus(rej[0], cmd))
+            gap = (0.0, 0.003, 0.01, 0.02, 0.04)[case["i"] % 5]
+            if gap == 0.0:
+                q.send_raw(ps38.encode(ac) + ner)        # one write: AC + request on the rejected context
+            else:
+                q.send_raw(ps38.encode(ac))
+                time.sleep(gap)                          # ... or shortly behind it, while associate() is still busy with the AC
+                q.send_raw(ner)
+            seen["answers"] = [x.get("type") + (":%04X" % x["cmd"].get("Status", -1) if x.get("type") == "DIMSE" else "") for x in
+                               (dict(v_, type="DIMSE" if v_.get("type") == "PDATA" else v_.get("type"), cmd=_first_cmd(v_)) for v_ in q.drain(quiet=0.5, limit=3.0))]
+        finally:
+            q.close()
+    th = threading.Thread(target=script, daemon=True)
+    th.start()
+    ae = harness.make_ae("C19-SCU", timeouts=(3.0, 3.0, 4.0, 3.0), requested=[VER, NER_SOP])
+
+    def on_ner(event):
+        calls.append(event.context.context_id)
+        return 0x0000, None
+    _RACE["hits"] = 0
+    _race_injection(True)
+    try:
+        assoc = ae.associate("127.0.0.1", lst.port, evt_handlers=[(evt.EVT_N_EVENT_REPORT, on_ner)])
+        th.join(6.0)
+        if assoc.is_established:
+            assoc.release()
+    finally:
+        _race_injection(False)
+        lst.close()
+        harness.stop_ae(ae, 2.0)
+    _bump(counters, "race_associate_cases")
+    _bump(counters, "race_yield_hits", _RACE["hits"])
+    viol = []
+    if calls:
+        viol.append({"key": "requestor|request-racing-the-associate-call|rejected|handler-invoked",
+                     "detail": "N-EVENT-REPORT-RQ sent together with the A-ASSOCIATE-AC on the rejected context %r: EVT_N_EVENT_REPORT handler "
+                               "invoked with context id(s) %r; acceptor saw %r" % (seen.get("rejected"), calls, seen.get("answers"))})
+    if any(a.startswith("DIMSE:0000") for a in (seen.get("answers") or [])):
+        viol.append({"key": "requestor|request-racing-the-associate-call|rejected|answered-as-valid",
+                     "detail": "a Success response went back for a request on the rejected context: %r" % seen.get("answers")})
+    inc = [] if "rejected" in seen else ["scripted acceptor did not get to send its AC"]
+    return viol, [{"rejected": seen.get("rejected"), "answers": seen.get("answers"), "handler_calls": calls, "yield_hits": _RACE["hits"]}], inc, [("race-associate", bool(seen.get("rejected")))]
+
+
+def _first_cmd(v):
+    try:
+        raw = bytes.fromhex(v["pdvs"][0]["data"])
+        return cmdset.decode(raw[1:]) if raw[0] & 1 else {}
+    except Exception:
+        return {}
+
+
 def run_case(case):
     counters = {}
-    if case["dir"] == "acceptor":
+    if case["dir"] == "race-associate":
+        viol, samples, inconc, dkeys = run_race_associate(case, counters)
+    elif case["dir"] == "acceptor":
         viol, samples, inconc, dkeys = run_acceptor_case(case, counters)
     else:
         viol, samples, inconc, dkeys = run_requestor_case(case, counters)
